@@ -36,28 +36,10 @@ Definition upd_a := set_update (q_init QGeneric) (Some ta).
 Definition sel_a := set_from (q_init QGeneric) [TTab ta].
 Definition ins_a := set_insert (q_init QPostgres) (Some ta).
 
-(* C14-update-join-tableless: Query.update(a).join(b).on(Field('x') == b.y) raises JoinException,
-   the same criterion is accepted on Query.from_(a) *)
 Definition crit_tableless : list (jfield * jfield) := [((None, "x"), (Some (TTab tb), "y"))].
-Theorem C14_refuted_update_join_tableless :
-  wf_q upd_a (QJoin (TTab tb) (JOn (Some crit_tableless))) = true
-  /\ step_q upd_a (QJoin (TTab tb) (JOn (Some crit_tableless))) = Err JoinExc
-  /\ first_fired guards_q (upd_a, QJoin (TTab tb) (JOn (Some crit_tableless))) = None
-  /\ (exists s', step_q sel_a (QJoin (TTab tb) (JOn (Some crit_tableless))) = Ok s').
-Proof. vm_compute. repeat split. eexists. reflexivity. Qed.
-Print Assumptions C14_refuted_update_join_tableless.
-
-(* C14-join-field-key-shadowing: from_(a).join(b).on((a.id == b.id) & (s1.a.id == b.k)) is accepted although
-   s1.a is no source: fields_() is a set keyed by "a.id" *)
 Definition ta_s1 := mkPT "a" (Some "s1") None.
 Definition crit_shadow : list (jfield * jfield) :=
   [((Some (TTab ta_s1), "id"), (Some (TTab tb), "k")); ((Some (TTab ta), "id"), (Some (TTab tb), "id"))].
-Theorem C14_refuted_join_key_shadowing :
-  wf_q sel_a (QJoin (TTab tb) (JOn (Some crit_shadow))) = true
-  /\ (exists s', step_q sel_a (QJoin (TTab tb) (JOn (Some crit_shadow))) = Ok s')
-  /\ first_fired guards_q (sel_a, QJoin (TTab tb) (JOn (Some crit_shadow))) = Some JoinExc.
-Proof. vm_compute. repeat split. eexists. reflexivity. Qed.
-Print Assumptions C14_refuted_join_key_shadowing.
 
 (* C14-returning-non-dml: PostgreSQLQuery.from_(a).select('x').returning('*') is accepted *)
 Definition pg_sel := set_selects (set_from (q_init QPostgres) [TTab ta]) 1 false.
@@ -87,35 +69,15 @@ Theorem C14_refuted_returning_key_shadowing :
 Proof. vm_compute. repeat split. eexists. reflexivity. Qed.
 Print Assumptions C14_refuted_returning_key_shadowing.
 
-(* C14-mssql-top-nonint: top(5.7) is accepted (as 5); top(None) raises TypeError *)
-Theorem C14_refuted_mssql_top :
+(* C14-mssql-top-float: top(5.7) is accepted (as 5) although top('5.7') is rejected as "not an integer" *)
+Theorem C14_refuted_mssql_top_float :
   (exists s', step_q (q_init QMSSQL) (QTop (TVFloat 5) false) = Ok s')
   /\ first_fired guards_q (q_init QMSSQL, QTop (TVFloat 5) false) = Some QueryExc
-  /\ step_q (q_init QMSSQL) (QTop TVNone false) = Err TypeErr
-  /\ first_fired guards_q (q_init QMSSQL, QTop TVNone false) = Some QueryExc.
+  /\ step_q (q_init QMSSQL) (QTop TVStrBad false) = Err QueryExc.
 Proof. vm_compute. repeat split. eexists. reflexivity. Qed.
-Print Assumptions C14_refuted_mssql_top.
+Print Assumptions C14_refuted_mssql_top_float.
 
-(* C14-primary-key-unarmed / C14-foreign-key-unarmed: after primary_key() / foreign_key([], ..) the guard is not armed *)
-Definition c0 := mkC false true false false 1 None None.
-Theorem C14_refuted_key_guards_unarmed :
-  snd (run step_c c0 [CPrimaryKey 0; CPrimaryKey 1; CPrimaryKey 1]) = [None; None; Some AttrErr]
-  /\ spec_outs guards_c step_c c0 [CPrimaryKey 0; CPrimaryKey 1; CPrimaryKey 1] = [None; Some AttrErr; Some AttrErr]
-  /\ snd (run step_c c0 [CForeignKey 0; CForeignKey 1]) = [None; None]
-  /\ spec_outs guards_c step_c c0 [CForeignKey 0; CForeignKey 1] = [None; Some AttrErr].
-Proof. vm_compute. repeat split. Qed.
-Print Assumptions C14_refuted_key_guards_unarmed.
-
-(* C14-drop-target-unarmed / C14-on-cluster-unarmed: drop_user('') / on_cluster('') do not arm the guard *)
-Theorem C14_refuted_drop_guards_unarmed :
-  snd (run step_d (mkD true None None) [DDrop KUser false; DDrop KTable true; DDrop KView true]) = [None; None; Some AttrErr]
-  /\ spec_outs guards_d step_d (mkD true None None) [DDrop KUser false; DDrop KTable true; DDrop KView true] = [None; Some AttrErr; Some AttrErr]
-  /\ snd (run step_d (mkD true None None) [DOnCluster false; DOnCluster true]) = [None; None]
-  /\ spec_outs guards_d step_d (mkD true None None) [DOnCluster false; DOnCluster true] = [None; Some AttrErr].
-Proof. vm_compute. repeat split. Qed.
-Print Assumptions C14_refuted_drop_guards_unarmed.
-
-(* C14-mutable-*: with immutable=False three methods have already written when they raise *)
+(* C14-mutable findings: with immutable=False two multi-term methods have already written when they raise *)
 Theorem C14_refuted_mutable : mutable_unsafe effects = expected_mutable_unsafe /\ expected_mutable_unsafe <> [].
 Proof. split; [vm_compute; reflexivity | discriminate]. Qed.
 Print Assumptions C14_refuted_mutable.
@@ -123,10 +85,10 @@ Print Assumptions C14_refuted_mutable.
 Theorem C14_refuted : ~ C14_full_statement.
 Proof.
   intros [Hq _].
-  destruct C14_refuted_update_join_tableless as [Hwf [Hstep [Hnone _]]].
+  destruct C14_refuted_returning_mixed_term as [Hwf [Hstep [Hnone _]]].
   pose proof (proj1 (Hq _ _ _ Hwf) Hstep) as H.
-  assert (E : Some JoinExc = None).
-  { transitivity (first_fired guards_q (upd_a, QJoin (TTab tb) (JOn (Some crit_tableless))));
+  assert (E : Some QueryExc = None).
+  { transitivity (first_fired guards_q (pg_upd, QReturning [RArith (RField (Some ta) "x") (RField (Some tb) "y")]));
       [symmetry; exact H | exact Hnone]. }
   discriminate.
 Qed.
@@ -140,8 +102,8 @@ Definition exact_on {S C : Type} (wf frag : S -> C -> bool) (step : S -> C -> re
 
 Definition C14_fragment_statement : Prop :=
   exact_on wf_q frag_q step_q guards_q
-  /\ exact_on wf_c frag_c step_c guards_c
-  /\ exact_on wf_d frag_d step_d guards_d
+  /\ exact wf_c step_c guards_c
+  /\ exact wf_d step_d guards_d
   /\ exact always step_t guards_t
   /\ exact always step_w guards_w
   /\ exact always step_k guards_k
@@ -224,6 +186,20 @@ Example C14_example_join :
   /\ wf_q s (QJoin (TTab tc) (JOn (Some bad))) && frag_q s (QJoin (TTab tc) (JOn (Some bad))) = true
   /\ step_q s (QJoin (TTab tc) (JOn (Some bad))) = Err JoinExc
   /\ first_fired guards_q (s, QJoin (TTab tc) (JOn (Some bad))) = Some JoinExc.
+Proof. vm_compute. repeat split. eexists. reflexivity. Qed.
+
+(* the situations repaired in pypika (a7c7bb0, 7e8ce52, 55ed75e) now agree with the table, inside the fragment *)
+Example C14_example_repaired :
+  let jt := QJoin (TTab tb) (JOn (Some crit_tableless)) in
+  let js := QJoin (TTab tb) (JOn (Some crit_shadow)) in
+  frag_q upd_a jt && frag_q sel_a js && frag_q (q_init QMSSQL) (QTop TVNone false) = true
+  /\ (exists s', step_q upd_a jt = Ok s') /\ first_fired guards_q (upd_a, jt) = None
+  /\ step_q sel_a js = Err JoinExc /\ first_fired guards_q (sel_a, js) = Some JoinExc
+  /\ step_q (q_init QMSSQL) (QTop TVNone false) = Err QueryExc
+  /\ snd (run step_c (mkC false true false false 1 None None) [CPrimaryKey 0; CPrimaryKey 1; CForeignKey 0; CForeignKey 1])
+     = [None; Some AttrErr; None; Some AttrErr]
+  /\ snd (run step_d (mkD true None None) [DDrop KUser false; DDrop KTable true; DOnCluster false; DOnCluster true])
+     = [None; Some AttrErr; None; Some AttrErr].
 Proof. vm_compute. repeat split. eexists. reflexivity. Qed.
 
 Example C14_example_returning :
